@@ -8,8 +8,10 @@ CONSTANTS
  FixDetector = TRUE
  FixNifty = TRUE
  AtomicAdopt = TRUE
+ RefreshExpected = TRUE
 INVARIANT NoShare
 INVARIANT OwnedInUse
 INVARIANT Reclaimed
+INVARIANT ListComplete
 INVARIANT FreedAtExit
 CHECK_DEADLOCK FALSE
